@@ -27,6 +27,8 @@ RESULT_SPELLINGS = [
     ('core::result::Result<i32, String>', True),
     ('MyResult', True),
     ('Res<i32>', True),
+    ('Result<i32, errs::Failure>', True),
+    ('Result<std::vec::Vec<u8>, std::string::String>', True),
 ]
 PLAIN_RETURNS = [('i32', False), ('String', False), ('Vec<u8>', False), ('Option<i32>', False), ('', False),
                  ('(i32, String)', False)]
@@ -48,6 +50,10 @@ def body_for(ret, is_async, awaits=1):
         return '{ %sSome(7) }' % pre
     if ret == '(i32, String)':
         return '{ %s(7, String::new()) }' % pre
+    if ret == 'Result<i32, errs::Failure>':
+        return '{ %sif std::hint::black_box(true) { Ok(7) } else { Err(errs::Failure) } }' % pre
+    if ret == 'Result<std::vec::Vec<u8>, std::string::String>':
+        return '{ %sif std::hint::black_box(true) { Ok(vec![1u8]) } else { Err(String::from("e")) } }' % pre
     # Result spellings
     return '{ %sif std::hint::black_box(true) { Ok(7) } else { Err(String::from("e")) } }' % pre
 
@@ -140,6 +146,7 @@ impl DefaultCacheableKey for Uk {}
 pub struct Svc { pub id: u32 }
 impl DefaultCacheableKey for Svc {}
 
+pub mod errs { #[derive(Debug, Clone)] pub struct Failure; impl cachelito_core::MemoryEstimator for Failure {} }
 pub type MyResult = Result<i32, String>;
 pub type Res<T> = Result<T, String>;
 
